@@ -715,6 +715,18 @@ func checkC05(c *Ctx) {
 	// (f) "the same files": the bytes written depend on a file through its content, not through the spelling of its path
 	r.Rule("C05.f", "the content handed to sys.WriteFile mentions a path parameter only as the argument of sys.ReadFile or filepath.Base (same files under another path spelling or working directory give the same bytes)", 1)
 	checkContentIndependentOfPath(c, f)
+	// (g) progress lines cannot decide the run: fc prints "transpile: <file>" before its recover handler is installed;
+	// the console wrappers forward to fmt and drop its error, so a stdout that rejects writes changes nothing
+	r.Rule("C05.g", "the console wrappers fc uses for progress lines (frt.Println, frt.Printf1) forward to fmt and ignore its result: what stdout is connected to cannot change the exit status or the output files", 2)
+	{
+		var sp []termSpec
+		for _, t := range c14Specs["pkg/frt"] {
+			if t.fn == "Println" || t.fn == "Printf1" {
+				sp = append(sp, t)
+			}
+		}
+		checkTermSpecsOpt(c, "C05.g", "pkg/frt", sp, false)
+	}
 	// the allow-list trusts the standard library and go-cmp as built: no go.mod replaces an external module
 	r.Rule("C05.e", "the allow-listed external modules are the ones actually built: no go.mod replaces an external module; go-cmp at the reviewed version", 12)
 	checkModuleGraph(c, "C05.e")
